@@ -134,6 +134,9 @@ def build(d, rng):
         p = os.path.join(r, "own%d" % k)
         open(p, "wb").close()
         os.chown(p, u, g)
+    os.symlink("own0", os.path.join(r, "lown0"))            # root's link to a file of an owner without a passwd entry
+    os.symlink("m00", os.path.join(r, "lchown"))            # a link of such an owner to root's file
+    os.lchown(os.path.join(r, "lchown"), 12345, 54321)
     return sorted(os.listdir(r))
 
 
@@ -220,6 +223,18 @@ def run(ctx):
         tests.append((["-group", "root"], lambda rec, lst: rec is not None and rec.st_gid == 0, False))
         tests.append((["-user", "12345"], lambda rec, lst: rec is not None and rec.st_uid == 12345, False))
         tests.append((["-group", "54321"], lambda rec, lst: rec is not None and rec.st_gid == 54321, False))
+        # -nouser / -nogroup: the same record (6fb0baf: they used to reject every symbolic link)
+        import pwd
+        import grp
+
+        def unknown(getter, ident):
+            try:
+                getter(ident)
+                return False
+            except KeyError:
+                return True
+        tests.append((["-nouser"], lambda rec, lst: rec is not None and unknown(pwd.getpwuid, rec.st_uid), False, "keep"))
+        tests.append((["-nogroup"], lambda rec, lst: rec is not None and unknown(grp.getgrgid, rec.st_gid), False, "keep"))
         tests.append((["-lname", "*"], lambda rec, lst: rec is not None and stat.S_ISLNK(rec.st_mode), False))
         for ref in ("m01", "lm00", "dir"):
             tests.append((["-samefile", "r/" + ref], ("samefile", ref), False))
